@@ -53,6 +53,7 @@ def run_in_process(mod, ctx: Ctx):
     mod.run(ctx)
     if reach is not None:
         ctx.extra["reach_calls_per_anchored_function_capped"] = reach.entered(set(files))
+        ctx.extra["reach_lines_hit"] = reach.lines_hit(set(files))
 
 
 def main(argv=None) -> int:
@@ -141,6 +142,23 @@ def main(argv=None) -> int:
         never = sorted(allf - set(ent))
         ctx.extra["reach_summary"] = {"anchored_files": files, "functions_defined": len(allf), "functions_entered": len(set(ent) & allf),
                                       "functions_never_entered": never}
+        hit = ctx.extra.pop("reach_lines_hit", None)
+        if hit is not None:
+            from spverif.san.reach import function_lines, ranges
+            fl = function_lines(os.path.abspath(repo_mod.REPO), files)
+            per = {}
+            tot = got = 0
+            for rel, lines in sorted(fl.items()):
+                h = set(hit.get(rel, [])) & set(lines)
+                miss = sorted(set(lines) - h)
+                byfn = {}
+                for ln in miss:
+                    byfn.setdefault(lines[ln], []).append(ln)
+                per[rel] = {"statement_lines_in_functions": len(lines), "executed": len(h),
+                            "not_executed_by_function": {fn: ranges(v) for fn, v in sorted(byfn.items())}}
+                tot += len(lines)
+                got += len(h)
+            ctx.extra["reach_lines"] = {"statement_lines_in_functions": tot, "executed_by_this_run": got, "per_file": per}
     concl = getattr(mod, "conclude", None)
     if concl is not None:
         concl(ctx)
